@@ -667,4 +667,62 @@ func runC11(c *engine.Ctx) {
 	}
 	c.Check(n13 >= 5, "family-agnostic-network-literals", token.NoPos, n13, nil, "positive control: %d net.* calls with \"tcp\"/\"udp\" seen, %d family-restricted", n13, fam)
 	c.Floor(n13, 5)
+
+	// ---- R14 the internal listener hands out everything that was queued ----
+	c.Rule("R14", "InternalListener.Accept reports 'closed' only when the receive from its queue reports the channel closed and drained: PutConn has already told the peer 'ok' for every queued connection, so a closed flag must not make Accept abandon them")
+	if af := fn(c, "pkg/util/net.InternalListener.Accept"); af != nil {
+		var track []ssa.Value
+		engine.ForEachInstr(af, func(in ssa.Instruction) {
+			if r, ok := in.(*ssa.Return); ok {
+				track = append(track, r.Results...)
+			}
+		})
+		c.AllPaths("pkg/util/net.InternalListener.Accept", engine.PathCheck{Fn: af, Sink: engine.IsReturn, Track: track, Pred: func(st *engine.PathState) string {
+			r := st.Sink.(*ssa.Return)
+			if engine.IsNilConst(st.Resolve(r.Results[1])) {
+				return ""
+			}
+			// an error exit: the comma-ok receive must have been found !ok on this path
+			okv, known := st.Truth(func(v ssa.Value) bool {
+				ex, ok := v.(*ssa.Extract)
+				if !ok || ex.Index != 1 {
+					return false
+				}
+				u, ok := ex.Tuple.(*ssa.UnOp)
+				return ok && u.Op == token.ARROW
+			})
+			if !(known && !okv) {
+				return "Accept returns an error on a path where the queue was not found closed and drained: connections still queued are never handed out and never closed"
+			}
+			return ""
+		}}, "error only after the queue reported closed")
+		c.Floor(1, 1)
+	}
+
+	// ---- R15 a failed request for a work connection ends the attempt ----
+	c.Rule("R15", "BaseProxy.GetWorkConnFromPool returns when getWorkConnFn fails (that call already waited for the user-connection timeout); only a failed announcement moves on to the next pooled connection")
+	if gf := fn(c, "server/proxy.BaseProxy.GetWorkConnFromPool"); gf != nil {
+		getF := field(c, "server/proxy", "BaseProxy", "getWorkConnFn")
+		k := 0
+		engine.ForEachInstr(gf, func(in ssa.Instruction) {
+			call, ok := in.(*ssa.Call)
+			if !ok || getF == nil {
+				return
+			}
+			if lf, _ := engine.LoadedField(call.Call.Value); lf != getF {
+				return
+			}
+			k++
+			c.AllPaths("server/proxy.BaseProxy.GetWorkConnFromPool>request-failed", engine.PathCheck{Fn: gf, From: call, KeepLoopFacts: true,
+				Sink: func(x ssa.Instruction) bool { return engine.IsReturn(x) || x == ssa.Instruction(call) },
+				Pred: func(st *engine.PathState) string {
+					isNil, known := st.IsNil(func(v ssa.Value) bool { cl, i := engine.ResultOfCall(v); return cl == call && i == 1 })
+					if known && !isNil && !engine.IsReturn(st.Sink) {
+						return "after getWorkConnFn failed the loop asks again: a user of a client that delivers no work connection is held (poolCount+1) × userConnTimeout instead of one timeout"
+					}
+					return ""
+				}}, "request failure ⇒ return")
+		})
+		c.Floor(k, 1)
+	}
 }
